@@ -34,3 +34,118 @@ Definition bad_spec (cs : list spec_case) : list nat := bad spec_ok cs 0.
 Record diag_case := DC { dc_t : tensor; dc_obs : option tensor }.
 Definition diag_ok (c : diag_case) : bool := otensor_eqb (spec_diagonal (dc_t c)) (dc_obs c).
 Definition bad_diag (cs : list diag_case) : list nat := bad diag_ok cs 0.
+
+(* ===================================================================================== *)
+(* ---- L2: transcriptions of utils/getitem.py and __getitem__ vs the real functions *)
+
+Definition olnat_eqb (a b : option (list nat)) : bool :=
+  match a, b with Some x, Some y => lnat_eqb x y | None, None => true | _, _ => false end.
+
+(* short constructors for normalised items *)
+Definition NI (i : Z) : item := IInt i.
+Definition NS (a b s : option Z) : item := ISlice a b s.
+Definition NT (sh : list nat) (d : list Z) : item := ITensor sh d.
+
+(* _compute_getitem_size *)
+Record size_case := ZC { zc_debug : bool; zc_shape : list nat; zc_idx : list item; zc_obs : option (list nat) }.
+Definition size_ok (c : size_case) : bool :=
+  olnat_eqb (compute_getitem_size (zc_debug c) (zc_shape c) (zc_idx c)) (zc_obs c).
+Definition bad_size (cs : list size_case) : list nat := bad size_ok cs 0.
+
+(* _is_tensor_index_moved_to_start *)
+Record moved_case := MC { mc_idx : list item; mc_obs : bool }.
+Definition moved_ok (c : moved_case) : bool := Bool.eqb (is_moved_to_start (mc_idx c)) (mc_obs c).
+Definition bad_moved (cs : list moved_case) : list nat := bad moved_ok cs 0.
+
+(* _convert_indices_to_tensors *)
+Fixpoint ltens_eqb (a b : list (list nat * list Z)) : bool :=
+  match a, b with
+  | [], [] => true
+  | (s1, d1) :: r, (s2, d2) :: s => lnat_eqb s1 s2 && lz_eqb d1 d2 && ltens_eqb r s
+  | _, _ => false
+  end.
+Record conv_case := VC { vc_shape : list nat; vc_idx : list item; vc_obs : option (list (list nat * list Z)) }.
+Definition conv_ok (c : conv_case) : bool :=
+  match convert_indices_to_tensors (vc_shape c) (vc_idx c), vc_obs c with
+  | Some x, Some y => ltens_eqb x y
+  | None, None => true
+  | _, _ => false
+  end.
+Definition bad_conv (cs : list conv_case) : list nat := bad conv_ok cs 0.
+
+(* DenseLinearOperator.__getitem__: the observation must be what the pinned transcription or what the repaired
+   transcription computes (a repaired tree passes as well); code: 0 = neither, 1 = pinned only, 2 = fixed only, 3 = both *)
+Record front_case := FC { fc_debug : bool; fc_t : tensor; fc_idx : list raw; fc_obs : option tensor }.
+Definition front_code (c : front_case) : nat :=
+  ((if otensor_eqb (getitem_model Pinned (fc_debug c) (fc_t c) (fc_idx c)) (fc_obs c) then 1 else 0) +
+   (if otensor_eqb (getitem_model Fixed (fc_debug c) (fc_t c) (fc_idx c)) (fc_obs c) then 2 else 0))%nat.
+Definition front_codes (cs : list front_case) : list nat := map front_code cs.
+(* the repaired transcription against the SPEC (supports the unproved front-end theorem on the grid) *)
+Definition front_fixed_is_spec (c : front_case) : bool :=
+  otensor_eqb (getitem_model Fixed false (fc_t c) (fc_idx c)) (torch_index (fc_t c) (fc_idx c)).
+Definition bad_front_spec (cs : list front_case) : list nat := bad front_fixed_is_spec cs 0.
+
+(* ===================================================================================== *)
+(* ---- L3: per-class _get_indices arithmetic vs the real methods (operators over dense children) *)
+
+(* entry (i, j) of a row-major matrix with ncols columns *)
+Definition mat_at (ncols : Z) (d : list Z) (i j : Z) : Z := nth (Z.to_nat (i * ncols + j)) d 0.
+(* entry (b, i, j) of a row-major stack of m x n matrices *)
+Definition stack_at (m n : Z) (d : list Z) (b i j : Z) : Z := nth (Z.to_nat ((b * m + i) * n + j)) d 0.
+
+Record toep_case := TC { tc_col : list Z; tc_rc : list (Z * Z); tc_obs : list Z }.
+Definition toep_ok (c : toep_case) : bool :=
+  let n := Z.of_nat (length (tc_col c)) in
+  lz_eqb (map (fun '(r, k) => nth (Z.to_nat (toeplitz_index n r k)) (tc_col c) 0) (tc_rc c)) (tc_obs c).
+Definition bad_toep (cs : list toep_case) : list nat := bad toep_ok cs 0.
+
+(* factors: (rows, cols, row-major data) *)
+Record kron_case := KC { kc_f : list (Z * Z * list Z); kc_rc : list (Z * Z); kc_obs : list Z }.
+Definition kron_ok (c : kron_case) : bool :=
+  let ms := map (fun f => fst (fst f)) (kc_f c) in
+  let ns := map (fun f => snd (fst f)) (kc_f c) in
+  let fs := map (fun f => mat_at (snd (fst f)) (snd f)) (kc_f c) in
+  lz_eqb (map (fun '(r, k) => kron_get_indices ms ns fs r k) (kc_rc c)) (kc_obs c).
+Definition bad_kron (cs : list kron_case) : list nat := bad kron_ok cs 0.
+
+(* interleaved = false: BlockDiag, true: BlockInterleaved; k blocks of m x n *)
+Record block_case := BC { bc_il : bool; bc_k : Z; bc_m : Z; bc_n : Z; bc_d : list Z; bc_rc : list (Z * Z); bc_obs : list Z }.
+Definition block_ok (c : block_case) : bool :=
+  let base := stack_at (bc_m c) (bc_n c) (bc_d c) in
+  lz_eqb (map (fun '(r, k) => if bc_il c then blockinterleaved_get_indices (bc_k c) base r k
+                              else blockdiag_get_indices (bc_m c) (bc_n c) base r k) (bc_rc c)) (bc_obs c).
+Definition bad_block (cs : list block_case) : list nat := bad block_ok cs 0.
+
+(* BatchRepeat of a (size, m, n) dense stack: index triples (b, r, c) *)
+Record rep_case := RC { rc_size : Z; rc_m : Z; rc_n : Z; rc_d : list Z; rc_brc : list (Z * Z * Z); rc_obs : list Z }.
+Definition rep_ok (c : rep_case) : bool :=
+  lz_eqb (map (fun '(b, r, k) => stack_at (rc_m c) (rc_n c) (rc_d c) (batchrepeat_index (rc_size c) b) r k) (rc_brc c)) (rc_obs c).
+Definition bad_rep (cs : list rep_case) : list nat := bad rep_ok cs 0.
+
+(* Masked over a dense m x n matrix *)
+Record mask_case := KM { km_n : Z; km_d : list Z; km_rm : list bool; km_cm : list bool; km_rc : list (Z * Z); km_obs : list Z }.
+Definition mask_ok (c : mask_case) : bool :=
+  let rp := mask_positions (km_rm c) 0 in let cp := mask_positions (km_cm c) 0 in
+  lz_eqb (map (fun '(r, k) => mat_at (km_n c) (km_d c) (nth (Z.to_nat r) rp 0) (nth (Z.to_nat k) cp 0)) (km_rc c)) (km_obs c).
+Definition bad_mask (cs : list mask_case) : list nat := bad mask_ok cs 0.
+
+(* Cat along the last dimension of dense pieces (rows, cols_k, data_k): index pairs (r, x) *)
+Record cat_case := CC { cc_p : list (Z * list Z); cc_rx : list (Z * Z); cc_obs : list Z }.
+Definition cat_ok (c : cat_case) : bool :=
+  let sizes := map (fun p => Z.to_nat (fst p)) (cc_p c) in
+  lz_eqb (map (fun '(r, x) => let '(k, i) := cat_locate sizes (Z.to_nat x) in
+                              let p := nth k (cc_p c) (0, []) in mat_at (fst p) (snd p) r (Z.of_nat i)) (cc_rx c)) (cc_obs c).
+Definition bad_cat (cs : list cat_case) : list nat := bad cat_ok cs 0.
+
+(* CatLinearOperator._split_slice: observed pieces (component, start, stop) with None bounds written out *)
+Fixpoint ltrip_eqb (a b : list (nat * Z * Z)) : bool :=
+  match a, b with
+  | [], [] => true
+  | (k1, a1, b1) :: r, (k2, a2, b2) :: s => Nat.eqb k1 k2 && Z.eqb a1 a2 && Z.eqb b1 b2 && ltrip_eqb r s
+  | _, _ => false
+  end.
+Record split_case := PC { pc_sizes : list nat; pc_a : option Z; pc_b : option Z; pc_obs : list (nat * Z * Z) }.
+Definition split_code (c : split_case) : nat :=
+  ((if ltrip_eqb (split_slice Pinned (pc_sizes c) (pc_a c) (pc_b c)) (pc_obs c) then 1 else 0) +
+   (if ltrip_eqb (split_slice Fixed (pc_sizes c) (pc_a c) (pc_b c)) (pc_obs c) then 2 else 0))%nat.
+Definition split_codes (cs : list split_case) : list nat := map split_code cs.
